@@ -254,6 +254,7 @@ class FilenamesRun(Contract):
         g['emitted_s'] = VSeq(z3.Empty(SeqStrS), K_STRING)
         g['sleeps'] = VInt(0)
         g['emitted_before_seen'] = VBool(False)
+        g['S'] = VSeq(z3.Const('sorted_listing_never_computed', SeqStrS), K_STRING)     # replaced by the code's own sorted(...)
         self.seen0, self.G = seen0, G
         seen_card = z3.Int('seen_card')
         st.assume(seen_card >= 0)
@@ -283,7 +284,11 @@ class FilenamesRun(Contract):
 
     def spec_funcs(self):
         def glob(I, args, kwargs, fr):
-            return I.st.new_set(SetCell(self.G, K_STRING, None))
+            # the listing: some finite set of paths; its size is an unknown number (no relation to the sizes of other sets is
+            # assumed, so code that compares sizes instead of contents is not trusted to have compared the contents)
+            card = z3.Int('glob_card')
+            I.st.assume(card >= 0)
+            return I.st.new_set(SetCell(self.G, K_STRING, card))
 
         def set_(I, args, kwargs, fr):
             return args[0]
